@@ -156,19 +156,17 @@ Definition consume (b0 : list ev) (fail : bool) (c : cfg) (o : oev) : list cfg :
   | OStall _ => []      (* the model never gets stuck: see Props, progress theorems *)
   end.
 
-Fixpoint simulate (b0 : list ev) (fail : bool) (cs : list cfg) (log : list oev) : bool :=
+Definition sim_step (b0 : list ev) (fail : bool) (cs : list cfg) (o : oev) : list cfg :=
   match cs with
-  | [] => false
-  | _ =>
-      match log with
-      | [] => true
-      | o :: log' =>
-          simulate b0 fail (closure closure_fuel (flat_map (fun c => consume b0 fail c o) cs) []) log'
-      end
+  | [] => []
+  | _ => closure closure_fuel (flat_map (fun c => consume b0 fail c o) cs) []
   end.
 
 Definition incl_ok (c : case) : bool :=
-  simulate (k_b0 c) (k_fail c) (closure closure_fuel [Cfg init [] [] false] []) (k_log c).
+  match fold_left (sim_step (k_b0 c) (k_fail c)) (k_log c) (closure closure_fuel [Cfg init [] [] false] []) with
+  | [] => false
+  | _ => true
+  end.
 
 (* ---------------------------------------------------------------- the property on the log *)
 
